@@ -21,7 +21,13 @@ def showVal : Value → String
   | .str s => "S:" ++ Obs.esc s
 def showVals (vs : List Value) : String := Obs.join "," (vs.map showVal)
 
-def hostEnv (extraCmds : List String) : Env Host where
+def rot1 (c : Char) : Char :=
+  if 'a' ≤ c ∧ c ≤ 'z' then Char.ofNat ('a'.toNat + (c.toNat - 'a'.toNat + 1) % 26)
+  else if 'A' ≤ c ∧ c ≤ 'Z' then Char.ofNat ('A'.toNat + (c.toNat - 'A'.toNat + 1) % 26)
+  else if '0' ≤ c ∧ c ≤ '9' then Char.ofNat ('0'.toNat + (c.toNat - '0'.toNat + 1) % 10)
+  else c
+
+def hostEnv (extraCmds : List String) (bare : Bool := false) : Env Host where
   knows f := f == "probe" || f == "two" || f == "boom" || f == "nr" || f == "tick"
   call f args h :=
     let h := { h with log := h.log ++ [f ++ "(" ++ showVals args ++ ")"] }
@@ -33,7 +39,8 @@ def hostEnv (extraCmds : List String) : Env Host where
     | _, _ => (.err .callFailed, h)
   cmd name args h :=
     let logged : Host := { h with log := h.log ++ ["cmd:" ++ Obs.esc name ++ "(" ++ showVals args ++ ")"] }
-    if name == "cmd" || extraCmds.contains name || h.late.contains name then (.done, logged)
+    if h.late.contains name || (!bare && (name == "cmd" || extraCmds.contains name)) then (.done, logged)
+    else if bare then (if name == "wait" then (.panicked, h) else (.unknown, h))
     else if name == "failing" then (.failed, logged)
     else if name == "ctl" then (.pending, { logged with ctlOpen := true })
     else if name == "wait" then (.panicked, h)       -- timing dependent: not modelled in this stream
@@ -101,7 +108,7 @@ def runCase (c : S) : List String := Id.run do
     | .list [k, v] => m.set k.str (value v)
     | _ => m) []
   let extra := ((c.find "cmds").map S.args |>.getD []).map S.str
-  let env := hostEnv extra
+  let env := hostEnv extra (c.find "bare").isSome
   let mk := realMarkup
   -- `Props/C01Ranked.fuelFor_sound`: for a Productive program, and for a program whose non-yielding jumps are ranked
   -- (`Ranked.rankOf`), the bound depending on the program alone is never exhausted from a reachable state; other
@@ -201,7 +208,7 @@ def runCase (c : S) : List String := Id.run do
         | some hr =>
           let v := (a.getD 1 (.atom "")).str
           let store' := match hr.r.d.store.get v with
-            | some (.str t) => hr.r.d.store.set v (.str (String.ofList t.toList.reverse))
+            | some (.str t) => hr.r.d.store.set v (.str (String.ofList (t.toList.map rot1)))
             | _ => hr.r.d.store
           let r1 : RR := { hr.r with d := { hr.r.d with store := store' } }
           let (str, r2) := stateStr r1
